@@ -71,19 +71,25 @@ def make_reactor():
             self.advance(delay)
 
         def advance(self, amount):
-            """Like task.Clock.advance, but an exception raised by a delayed call is logged instead
-            of escaping - that is what the real reactor's runUntilCurrent does."""
+            """One reactor pass: like the real reactor's runUntilCurrent, run the calls that are due
+            and were already pending when the pass started (calls scheduled during the pass wait for
+            the next one, even with delay 0), and log - not raise - what they raise."""
             from twisted.python import log as tlog
             self.rightNow += amount
             self._sortCalls()
-            while self.calls and self.calls[0].getTime() <= self.seconds():
-                call = self.calls.pop(0)
+            due = [c for c in self.calls if c.getTime() <= self.seconds()]
+            for call in due:
+                if call not in self.calls:   # cancelled meanwhile
+                    continue
+                if call.getTime() > self.seconds():  # delayed / reset meanwhile
+                    continue
+                self.calls.remove(call)
                 call.called = 1
                 try:
                     call.func(*call.args, **call.kw)
                 except BaseException:  # noqa - the real reactor logs and carries on
                     tlog.err()
-                self._sortCalls()
+            self._sortCalls()
 
         def getDelayedCalls(self):
             return list(super().getDelayedCalls())
